@@ -123,3 +123,5 @@ def r9_5(cx):
 
 
 RULES = [('R9.1', r9_1), ('R9.2', r9_2), ('R9.3', r9_3), ('R9.4', r9_4), ('R9.5', r9_5)]
+RULES.append(('R9.6', scan_rule(('hcobs::',))))
+FLOORS['R9.6'] = 1
